@@ -5,36 +5,40 @@ import json, subprocess
 HOOK_COMMITS = subprocess.run(["git","-C","/repo","log","--format=%H %s","--grep=^verif hook"],capture_output=True,text=True).stdout.strip().splitlines()
 
 CHECKS = {
+ "C01": ("exploration","3/C01",
+   "Scoped claim (DESIGN.md 3/C01): one logical message - every header field over boundary classes and random values (version, notify, reserved bits, id, unknown format codes, ec), query and body 0..64 KiB incl. empty, body Vec capacity below / equal / above the in-place threshold 48+query+body - is emitted through every route (to_vec, write_to, into_wire_bytes, write_message, write_message_streaming with junk length fields, write_message_typed_slice / _complex_slice vs. the owned builder routes, write_message_async) into sinks that accept short writes and return EINTR / Pending, and read back (from_slice, MessageView::from_slice_exact, read_message, read_message_into and the async twins) from sources that deliver 1..n bytes and EINTR / Pending; every output must equal the independent layout oracle byte for byte and every parsed field must equal the input; the interop fixtures are decoded by the oracle and re-emitted by every route. On the simulated wire, AsyncClient::forward_message requests (arbitrary ids, format codes, notify) and blocking Server / AsyncServer responses whose format codes, query and body a handler dictated are tapped and compared with the concatenated oracle encodings.",
+   "the layout itself is a pure function: what the simulation adds is the faulting sink/source seam and the live-endpoint taps; the field-value sweep is seeded input generation riding on the same oracle and is not counted as schedule exploration. WebSocket endpoints frame through into_wire_bytes, covered by the route sweep and by the one-whole-frame-per-message oracles of C05/C15-C17.",
+   "deterministic simulation: fault-injecting Read/Write/AsyncRead/AsyncWrite seams + wire taps vs. independent layout oracle"),
  "C02": ("fault_enumeration","3/C02",
    "Hostile byte strings (random up to 4 KiB, structured mutations of valid frames, the three 64-bit length fields over boundary classes including wrapping and saturating sums) are fed to Header::decode, Message/MessageView::from_slice(_exact), read_message, read_message_into and the async twins through a reader seam that chunks, injects EINTR / spurious Pending and truncates at a seeded byte position; a hostile peer on the simulated network sends the same bytes to the real blocking Server and the real AsyncServer (then a healthy connection must still be served) and, as a server, to the real blocking Client and the real AsyncClient with calls in flight. Oracle: the independent codec's verdict in 128-bit arithmetic (acceptance, returned payload bytes, bytes consumed), catch_unwind for panics, and worker-process death attributed to the journalled case for aborts.",
    "declared sizes for stream readers are <= 16 MiB or >= 2^62 for the frame and for each payload (never in between), workers run under RLIMIT_AS so an impossible allocation fails the same way everywhere; panics that the tokio runtime catches inside spawned tasks are journalled by the panic hook and reported.",
    "deterministic simulation: hostile-peer + faulting-reader fault injection, independent-codec oracle, abort detection by process journal"),
  "C03": ("exploration","3/C03",
-   "Pipelined request sequences (1-64 requests: valid/invalid version, every query-format code, non-UTF-8 queries, registered/unregistered/mounted paths, every built-in handler kind incl. the _blocking and middleware-wrapped ones, every body-format code with well-formed, malformed and empty bodies, notify 0/1) are sent by a raw scripted client over the simulated network (seeded chunking, delays, short I/O, thread schedules) to the real blocking Server and the real AsyncServer (paused-clock tokio runtime) and compared with a routing/dispatch reference model: exactly one response per non-notify request in arrival order, none per notify, error code, echoed (or handler-chosen) query, body for deterministic handlers, user closure and middleware invocation counts.",
+   "Pipelined request sequences (1-64 requests: valid/invalid version, every query-format code, non-UTF-8 queries, registered/unregistered/mounted paths, every built-in handler kind incl. the _blocking and middleware-wrapped ones, every body-format code with well-formed, malformed and empty bodies, notify 0/1) are sent by a raw scripted client over the simulated network (seeded chunking, delays, short I/O, thread schedules) to the real blocking Server, the real AsyncServer and the real WebSocketServer (inline routes on the reader task, _blocking routes off-reader on simulated threads; paused-clock tokio runtime) and compared with a routing/dispatch reference model: exactly one response per non-notify request in arrival order, none per notify, error code, echoed (or handler-chosen) query, body for deterministic handlers, user closure and middleware invocation counts; WebSocket inline responses in arrival order, off-reader ones as a multiset; the WebSocketServer's responses are additionally compared field by field with the AsyncServer's on the same sequence.",
    "handlers used for comparison are deterministic; notify flags are 0 or 1; registry/struct mounts are modelled only as far as C03 states (response, id, query, error class).",
    "deterministic simulation: seeded pipelined histories vs. routing reference model"),
  "C04": ("exploration","3/C04",
-   "1-64 concurrent callers (threads on the blocking Client, tasks on the AsyncClient) and batch_json calls on clones of one real client against a scripted server on the simulated network that answers in seeded (permuted) order and injects unknown-id and duplicated response frames; every scheduling point of register/write/receive/match/deliver is a seeded kernel decision, socket I/O is chunked, delayed and interrupted (short reads/writes, EINTR). Each call must return its own token, batches stay positionally aligned, request ids on a connection are distinct, nothing stays pending.",
+   "1-64 concurrent callers (threads on the blocking Client, tasks on the AsyncClient and the WebSocketClient) and batch_json calls on clones of one real client against a scripted server on the simulated network that answers in seeded (permuted) order and injects unknown-id and duplicated response frames, and (WebSocket) server-pushed notifies reusing an in-flight id that must reach only the notify subscriber; AsyncClient::forward_message pairs sharing a caller-supplied id (the second may be refused, nobody else may be disturbed); every scheduling point of register/write/receive/match/deliver is a seeded kernel decision, socket I/O is chunked, delayed and interrupted (short reads/writes, EINTR). Each call must return its own token, batches stay positionally aligned, request ids on a connection are distinct, nothing stays pending.",
    "simulated socket semantics (DESIGN.md 2.2); scripted peer written with the harness's independent codec.",
    "deterministic simulation: seeded schedules + scripted adversarial peer, per-call token oracle"),
  "C05": ("fault_enumeration","3/C05",
-   "Up to 32 concurrent writers per connection (blocking Client, AsyncClient, blocking Server, AsyncServer) with payloads straddling the drawn socket capacity and BufWriter size, peer stalls (bounded and permanent), configured write timeouts, short writes, EINTR / spurious Pending, and callers abandoning an async call mid-send (future dropped at its k-th poll, or by an enclosing timeout); the wire tap of everything the endpoint wrote must be complete frames with self-describing bodies, optionally followed by a prefix of one frame and then nothing.",
+   "Up to 32 concurrent writers per connection (blocking Client, AsyncClient, WebSocketClient, blocking Server, AsyncServer, WebSocketServer with inline + off-reader responses, pushed notifies, broadcasts and tiny assumed peer limits) with payloads straddling the drawn socket capacity and BufWriter size, peer stalls (bounded and permanent), configured write timeouts, short writes, EINTR / spurious Pending, and callers abandoning an async call mid-send (future dropped at its k-th poll, or by an enclosing timeout); the wire tap of everything the endpoint wrote must be complete frames with self-describing bodies, optionally followed by a prefix of one frame and then nothing; on WebSocket connections every binary message must be exactly one whole frame with its own body.",
    "wire-tap oracle uses patterned bodies (a body byte is a function of the writer and offset) so foreign bytes inside a frame are recognisable; simulated socket semantics.",
    "deterministic simulation: fault injection (stall, write timeout, short I/O) + wire-tap stream-shape oracle"),
  "C06": ("fault_enumeration","3/C06",
-   "0-16 calls in flight on the blocking Client and the AsyncClient (with and without per-call timeouts) while the scripted server closes (FIN), resets, sends each kind of malformed header or cuts a response at each byte-offset class, before/after reading requests; timeouts racing response delivery at deadline-1ms..+50ms on the simulated clock; on the AsyncClient additionally cancellation of a call at its k-th poll (k = 1..6) or by an enclosing timeout. Every in-flight and later call must return (a hang is a kernel deadlock report), late responses are dropped, unrelated calls get their own reply, no pending entry remains.",
+   "0-16 calls in flight on the blocking Client, the AsyncClient and the WebSocketClient (with and without per-call timeouts; WebSocket: Close frame, FIN, RST, text message, malformed REPE frame, WebSocket garbage, and a notify subscriber that must see end-of-stream) while the scripted server closes (FIN), resets, sends each kind of malformed header or cuts a response at each byte-offset class, before/after reading requests; timeouts racing response delivery at deadline-1ms..+50ms on the simulated clock; on the AsyncClient and WebSocketClient additionally cancellation of a call at its k-th poll (k = 1..6) or by an enclosing timeout. Every in-flight and later call must return (a hang is a kernel deadlock report), late responses are dropped, unrelated calls get their own reply, no pending entry remains.",
    "the peer always drains what the client writes (peer stalls belong to C05); simulated socket semantics.",
    "deterministic simulation: connection-fault enumeration x seeded schedules, deadlock detection on the simulated clock"),
  "C19": ("fault_enumeration","3/C19",
-   "Real Fleet and AsyncFleet (retry delay and call timeouts on the simulated clock) against scripted nodes that emit per-attempt outcome sequences over {refused, accepted-then-closed (FIN or RST), closed-while-idle, silent-until-timeout, malformed reply, application error, success} of length up to max_attempts+2 for max_attempts 1..3, then turn healthy; both orders of 'reader notices the close' vs 'caller writes' come from the seeded scheduler. Oracle from the node's own log: requests per call <= max_attempts, no retry after a reply, the reply (or an error) is what the call returns, and a healthy-phase call succeeds (not wedged). Broadcasts over tag subsets of up to 4 nodes address exactly the nodes carrying all tags, one result each.",
+   "Real Fleet and AsyncFleet (retry delay and call timeouts on the simulated clock) against scripted nodes that emit per-attempt outcome sequences over {refused, accepted-then-closed (FIN or RST), closed-while-idle, silent-until-timeout (the connection either keeps working afterwards or stays open and is never answered again), malformed reply, application error, success} of length up to max_attempts+2 for max_attempts 1..3, then turn healthy; both orders of 'reader notices the close' vs 'caller writes' come from the seeded scheduler. Oracle from the node's own log: requests per call <= max_attempts, no retry after a reply, the reply (or an error) is what the call returns, and a healthy-phase call succeeds (not wedged). Broadcasts over tag subsets of up to 4 nodes address exactly the nodes carrying all tags, one result each.",
    "simulated socket semantics (write after local shutdown = BrokenPipe, connect without listener = ConnectionRefused, both validated against Linux); a malformed reply may or may not be retried (the property leaves it open) but must not wedge the node.",
    "deterministic simulation: scripted fault sequences x seeded schedules, node-log oracle, recovery (liveness) check after faults stop"),
  "C09": ("exploration","3/C09",
-   "Real SVS producers of every kind (value, typed array, complex array, reader, writer; payload lengths on every chunk-boundary residue, chunk sizes 1..1000 bytes, channel depths 0..8, none/zstd) run on the real Server with the producer thread, the bounded channel, the connection thread and the puller all under seeded schedules (plus seeded sleeps inside reader/writer producers). A raw scripted client speaks /_svs/open, next, cancel and checks: concatenated chunks equal the producer's logical bytes (after an independent zstd decode), exactly one final marker on the final chunk, empty payload = one empty final chunk, next past the end / after cancel is an error, a producer failure surfaces as an error and never as an end marker; pull_to_vec, pull_value, pull_typed_slice, pull_complex_slice and pull_consume over the real Client must return exactly the original.",
-   "blocking transport (Server + Client) only in this check family; payloads up to 64 KiB.",
+   "Real SVS producers of every kind (value, typed array, complex array, reader, writer; payload lengths on every chunk-boundary residue, chunk sizes 1..1000 bytes, channel depths 0..8, none/zstd) run on the real Server with the producer thread, the bounded channel, the connection thread and the puller all under seeded schedules (plus seeded sleeps inside reader/writer producers). A raw scripted client speaks /_svs/open, next, cancel and checks: concatenated chunks equal the producer's logical bytes (after an independent zstd decode), exactly one final marker on the final chunk, empty payload = one empty final chunk, next past the end / after cancel is an error, a producer failure surfaces as an error and never as an end marker; pull_to_vec, pull_value, pull_typed_slice, pull_complex_slice and pull_consume over the real Client, and their _async forms over the real AsyncClient (producer on the blocking Server) and the real WebSocketClient (producer on the WebSocketServer, /_svs/next off-reader; decoder on a simulated thread fed through tokio's bounded channel) must return exactly the original.",
+   "payloads up to 64 KiB.",
    "deterministic simulation: seeded producer/consumer schedules, stream-reassembly oracle"),
  "C10": ("fault_enumeration","3/C10",
-   "pull_to_file, pull_to_beve_file, pull_to_beve_zst_file and pull_to_file_trailer_verified against a real or scripted SVS producer with: producer failure at chunk boundaries +-1 byte, connection cut/reset/error reply/missing final marker after the k-th response, rejecting verifier, trailer longer than the stream, rename failure, and a simulated kill (the puller thread frozen, no destructor runs) at a seeded scheduling point or exactly at each commit-path probe (created, before_sync, synced, before_rename, after_rename); destination absent or pre-existing. Oracle on the real files: Ok => complete content and the temp file's length at rename equals its length at the last sync_all; Err or kill => destination byte-for-byte what it was (or complete iff the rename had been reached), no .svspart left after an in-process failure.",
+   "pull_to_file, pull_to_beve_file, pull_to_beve_zst_file and pull_to_file_trailer_verified against a real or scripted SVS producer with: producer failure at chunk boundaries +-1 byte, connection cut/reset/error reply/missing final marker after the k-th response, rejecting verifier, trailer longer than the stream, rename failure, and a simulated kill (the puller thread frozen, no destructor runs) at a seeded scheduling point or exactly at each commit-path probe (created, before_sync, synced, before_rename, after_rename); destination absent or pre-existing; the async forms (pull_to_file_async, _verified_async, _trailer_verified_async over AsyncClient and WebSocketClient) additionally with the pull future abandoned at its k-th poll and all connections reset mid-transfer, the destination sampled at every commit-path probe and every simulated millisecond. Oracle on the real files: Ok => complete content and the temp file's length at rename equals its length at the last sync_all; Err or kill => destination byte-for-byte what it was (or complete iff the rename had been reached), no .svspart left after an in-process failure.",
    "files are real (tmpfs private directory): torn writes / ENOSPC inside io::copy are not injected; durability is judged by the probe sequence (sync_all before rename with unchanged length), not by a simulated page cache.",
    "deterministic simulation: crash-point and fault enumeration over the commit path, file-state oracle"),
  "C15": ("fault_enumeration","3/C15",
@@ -77,7 +81,6 @@ NOT_APPLICABLE = [
 ]
 # properties that are planned but whose check is not registered yet are listed as not claimed
 PENDING = {
- "C01":"check under construction in this session (wire tap + emission routes)",
 
 
 
